@@ -729,6 +729,28 @@ pub fn gen_pinned_degenerate(rng: &mut Rng) -> System {
 /// except for the variables of ONE request, which sits first or last in the list: exercises
 /// size-dependent paths (chunked loops, buffers sized from a count) whose mistakes only concern a few
 /// rows at the beginning or the end.
+static LARGE_COUNT: std::sync::atomic::AtomicUsize = std::sync::atomic::AtomicUsize::new(0);
+
+/// Every oracle needs its large class (DESIGN 11.6, lessons 4 and 10): one system in sixteen is
+/// replaced by a planted sketch of 35 ... 90 requests (60+ equations, dozens of variables), so that
+/// sorts, tables, buffers and index maps that only differ beyond a few dozen entries are exercised by
+/// every property's oracle, not only by the ones where such a defect was seen before.
+pub fn maybe_large(rng: &mut Rng, i: usize, sys: System) -> System {
+    if i % 16 != 9 {
+        return sys;
+    }
+    LARGE_COUNT.fetch_add(1, std::sync::atomic::Ordering::Relaxed);
+    let k = rng.range(35, 90);
+    let mut big = gen_planted(rng, k, 1e-2, &crate::gen_sys::SHAPES);
+    big.class = "large-planted";
+    big
+}
+
+/// How many systems `maybe_large` has replaced so far (for the STATS line and its coverage floor).
+pub fn large_count() -> usize {
+    LARGE_COUNT.load(std::sync::atomic::Ordering::Relaxed)
+}
+
 pub fn gen_large_one_off(rng: &mut Rng) -> System {
     let max_cons = rng.range(40, 110);
     let mut sys = gen_planted(rng, max_cons, 0.0, &crate::gen_sys::SHAPES);
